@@ -15,6 +15,8 @@
 import collections
 import copy
 import json
+import os
+import shutil
 from concurrent.futures import ThreadPoolExecutor
 
 from harness.core import (MachineryError, model_check, read_events, require, run_driver, run_drivers_parallel, seed,
@@ -125,9 +127,23 @@ def _record(rep, name, evs, v, corrupted):
     return v
 
 
+def _private_dir(kind):
+    """Scratch directory of THIS process (.work/C18/<kind>_<pid>): several runs of the check (e.g. against different trees) may
+    be in flight at once and must not wipe each other's files.  Directories left by processes that no longer exist are removed."""
+    base = work_dir("C18")
+    for d in base.iterdir():
+        m = d.name.rsplit("_", 1)
+        if d.is_dir() and len(m) == 2 and m[0] in ("run", "replay1") and m[1].isdigit() and not os.path.exists("/proc/" + m[1]):
+            shutil.rmtree(d, ignore_errors=True)
+    for old in ("run", "replay1"):
+        if (base / old).is_dir():
+            shutil.rmtree(base / old, ignore_errors=True)
+    return work_dir("C18", "%s_%d" % (kind, os.getpid()), clean=True)
+
+
 def run(rep, tier):
     quick = tier == "quick"
-    wd = work_dir("C18", "run", clean=True)
+    wd = _private_dir("run")
     sfx = "tiny" if quick else "deep"
     rep.rule = ("TLC enumerates, for each of ~70 veriT/Alethe step rules (clausification and tautology rules, and/or/implies/equiv/ite/xor "
                 "eliminations, th_resolution, contraction, eq_reflexive/transitive/congruent(_pred), trans, cong, subproof, the *_simplify "
@@ -137,7 +153,8 @@ def run(rep, tier):
                 "negation, comparison, arithmetic operator or numeral changed; coefficient / instantiation / clause size perturbed; "
                 "hypotheses attached); each candidate is evaluated by the real macro.eval; the candidates that need no extra argument are "
                 "also closed into whole refutation proofs (assume premises, step, assume complements, resolution) run through "
-                "ProofReconstruction.validate_step; plus seeded random larger candidates (random formulas substituted for the atoms). Non-trivial = the code ACCEPTED the step and "
+                "ProofReconstruction.validate_step, together with proofs with anchors (a local assumption cited from outside its subproof; NESTED "
+                "quantifier renamings whose inner bind step depends on the outer context equation and is cited later); plus seeded random larger candidates (random formulas substituted for the atoms). Non-trivial = the code ACCEPTED the step and "
                 "consequence was evaluated in finite models (|'a| <= 2) or on the arithmetic grid; distinct by full event content."
                 % (1 if quick else 3, 1 if quick else 3))
     rep.assumptions = ["consequence is refuted only by an explicit counter-interpretation: finite standard models with |'a| <= 2 (tier E) or "
@@ -209,7 +226,7 @@ def run(rep, tier):
 def replay(path):
     """Re-run one recorded failing event against the current code and re-validate it."""
     obj = json.load(open(path))
-    wd = work_dir("C18", "replay1", clean=True)
+    wd = _private_dir("replay1")
     if obj.get("kind") != "event":
         print(json.dumps(obj, indent=1)[:3000])
         return 1
